@@ -93,6 +93,18 @@ def t_wraps(n, pattern):
     return ('list', [t, ('int', 0)])
 
 
+def t_runs(n, what):
+    """long runs of one byte / character class, at top level and nested until no width is left"""
+    unit = {'cont': b'\xaa', 'hi': b'\xff', 'nul': b'\x00', 'quote': b"'", 'bs': b'\\'}.get(what)
+    if unit is not None:
+        leaf = ('bytes', unit * n)
+    else:
+        leaf = ('str', {'nbsp': '\xa0', 'emoji': '\U0001F600', 'nl': '\n', 'tab': '\t', 'combining': 'e\u0301'}[what] * n)
+    return ('list', [leaf, t_nest(n // 4, leaf=leaf)])
+
+
+for _w in ('cont', 'hi', 'nul', 'quote', 'bs', 'nbsp', 'emoji', 'nl', 'tab', 'combining'):
+    FAMILIES['runs-of-%s' % _w] = (lambda n, w=_w: t_runs(n, w), [20, 40, 80, 160])
 for _pat in ('c', 't', 'a'):
     FAMILIES['wrappers-on-one-node-%s' % _pat] = (lambda n, p=_pat: t_wraps(n, p), [2, 4, 8, 16])
 for _kind in ('list', 'tuple', 'dictval', 'call', 'callkw'):
